@@ -179,3 +179,27 @@ func BlockedMatching(substr string) []string {
 	}
 	return out
 }
+
+// ServeIdle reports whether a serve loop (a goroutine with handleInputStream on
+// its stack) is parked in the harness transport's Read, that is, waiting for
+// the peer's next bytes.  Together with Conn.PendingInput() == 0 this means the
+// library has consumed everything the peer sent.
+func ServeIdle() bool {
+	buf := make([]byte, 1<<20)
+	n := runtime.Stack(buf, true)
+	for _, g := range strings.Split(string(buf[:n]), "\n\n") {
+		if !strings.Contains(g, "handleInputStream") {
+			continue
+		}
+		for _, line := range strings.Split(g, "\n")[1:] {
+			if strings.HasPrefix(line, "\t") || strings.HasPrefix(line, "runtime.") || strings.HasPrefix(line, "sync.") || strings.HasPrefix(line, "internal/") || strings.HasPrefix(line, "time.") {
+				continue
+			}
+			if strings.HasPrefix(line, "mellium.im/xmpp/verifharness/internal/wire.(*Conn).Read") {
+				return true
+			}
+			break
+		}
+	}
+	return false
+}
